@@ -27,6 +27,8 @@ func init() {
 		"bs.grid":        exGrid,
 		"bs.fromfift":    exFromFift,
 		"bs.cell":        exCell,
+		"bs.cellseq":     exCellSeq,
+		"bs.cellspec":    exCellSeq,
 		"bs.minbits":     func(a []string) string { return strconv.Itoa(boc.VerifMinBitsRequired(u64c(a[0]))) },
 		"go.wr":          goWriteRead,
 		"go.overflow":    goOverflow,
@@ -37,6 +39,7 @@ func init() {
 		"go.parsedwrite": goParsedWrite,
 		"go.refs":        goRefs,
 		"go.copyrem":     goCopyRemaining,
+		"go.negarg":      goNegArg,
 		"go.writeint":    goWriteInt,
 		"go.minbits":     goMinBits,
 	}})
@@ -385,6 +388,112 @@ func exCell(a []string) string {
 		r := c.RawBitString()
 		return fmt.Sprintf("%s %d %d", showState(&r), c.RefsSize(), c.RefsAvailableForRead())
 	})
+}
+
+// exCellSeq: a heap of cells addressed by index; steps "<target>.<item>". References are pointers: the id of a cell
+// returned by NextRef / stored in a slot is found by pointer identity.
+func exCellSeq(a []string) string {
+	heap := []*boc.Cell{boc.NewCell()}
+	idOf := func(c *boc.Cell) int {
+		for i, x := range heap {
+			if x == c {
+				return i
+			}
+		}
+		return -1
+	}
+	var out []string
+	panicked := false
+	if a[0] != "-" {
+		for _, tok := range strings.Split(a[0], ";") {
+			dot := strings.IndexByte(tok, '.')
+			if dot < 0 {
+				return "bad-op"
+			}
+			t, it := atoi(tok[:dot]), tok[dot+1:]
+			r := func() (res string) {
+				defer func() {
+					if e := recover(); e != nil {
+						res = "panic"
+					}
+				}()
+				if it == "nc" {
+					heap = append(heap, boc.NewCell())
+					return fmt.Sprintf("ok:%d", len(heap)-1)
+				}
+				if t < 0 || t >= len(heap) {
+					return "err"
+				}
+				c := heap[t]
+				f := strings.Split(it, ":")
+				switch f[0] {
+				case "ar":
+					ch := atoi(f[1])
+					if ch < 0 || ch >= len(heap) {
+						return "err"
+					}
+					return res0(c.AddRef(heap[ch]))
+				case "nf":
+					n, err := c.NewRef()
+					heap = append(heap, n)
+					if err != nil {
+						return "err"
+					}
+					return fmt.Sprintf("ok:%d", len(heap)-1)
+				case "nr":
+					r, err := c.NextRef()
+					if err != nil {
+						return "err"
+					}
+					return fmt.Sprintf("ok:%d", idOf(r))
+				case "rC":
+					c.ResetCounters()
+					return "ok"
+				case "cr":
+					c2 := c.CopyRemaining()
+					heap = append(heap, c2)
+					return fmt.Sprintf("ok:%d", len(heap)-1)
+				case "rz":
+					return fmt.Sprintf("ok:%d", c.RefsSize())
+				case "ra":
+					return fmt.Sprintf("ok:%d", c.RefsAvailableForRead())
+				case "ba":
+					return fmt.Sprintf("ok:%d", c.BitsAvailableForRead())
+				case "bw":
+					return fmt.Sprintf("ok:%d", c.BitsAvailableForWrite())
+				}
+				return applyItem(c, it)
+			}()
+			if r == "bad" {
+				return "bad-op"
+			}
+			out = append(out, r)
+			if r == "panic" {
+				panicked = true
+				break
+			}
+		}
+	}
+	if panicked {
+		return strings.Join(append(out, "|", "panic"), " ")
+	}
+	var cells []string
+	for _, c := range heap {
+		raw := c.RawBitString()
+		var ids []string
+		for _, r := range c.Refs() {
+			ids = append(ids, strconv.Itoa(idOf(r)))
+		}
+		cells = append(cells, fmt.Sprintf("%s [%s] %d", showState(&raw), strings.Join(ids, ","), c.RefsAvailableForRead()))
+	}
+	return strings.Join(append(out, "|", strings.Join(cells, " / ")), " ")
+}
+
+func res0(err error) string {
+	if err != nil {
+		return "err"
+	}
+	return "ok"
 }
 
 func exGrid(a []string) string {
@@ -889,6 +998,56 @@ func goCopyRemaining(a []string) string {
 	return "ok"
 }
 
+// go.negarg <bits> <skip> <item with a negative int argument>: no panic; Skip and every reader return an error and leave
+// the state alone (a read must fail instead of inventing data); WriteUint writes nothing; WriteInt/WriteBigUint fail;
+// WriteBigInt fails after at most its sign bit; On/Off fail.
+func goNegArg(a []string) string {
+	bin := a[0]
+	if bin == "-" {
+		bin = ""
+	}
+	bs := boc.NewBitString(len(bin) + 70)
+	for _, c := range bin {
+		if err := bs.WriteBit(c == '1'); err != nil {
+			return "bad-op"
+		}
+	}
+	if err := bs.Skip(atoi(a[1])); err != nil {
+		return "bad-op"
+	}
+	before := showState(&bs)
+	r := applyItem(&bs, a[2])
+	kind := strings.SplitN(a[2], ":", 2)[0]
+	if r == "panic" {
+		return fail("negarg-panic", "%s", a[2])
+	}
+	switch kind {
+	case "wu":
+		if r != "ok" || showState(&bs) != before {
+			return fail("negarg-write", "%s gave %s", a[2], r)
+		}
+	case "wI":
+		if r != "err" || bs.GetWriteCursor() > len(bin)+1 {
+			return fail("negarg-write", "%s gave %s", a[2], r)
+		}
+	default:
+		if r != "err" {
+			return fail("negarg-"+strings.SplitN(r, ":", 2)[0], "%s with %d bits left gave %s", a[2], len(bin)-atoi(a[1]), r)
+		}
+		if showState(&bs) != before {
+			return fail("negarg-state", "%s changed the state", a[2])
+		}
+	}
+	// the cursor is still inside the data: a following read sees the bit at the cursor
+	if atoi(a[1]) < len(bin) {
+		v, err := bs.ReadBit()
+		if err != nil || v != (bin[atoi(a[1])] == '1') {
+			return fail("negarg-after", "%s: the next ReadBit is wrong", a[2])
+		}
+	}
+	return "ok"
+}
+
 // go.writeint <v> <n>: a successful WriteInt(v, n) appends exactly n ≥ 1 bits, and for representable v, ReadInt(n) gives v.
 func goWriteInt(a []string) string {
 	v, _ := strconv.ParseInt(a[0], 10, 64)
@@ -1059,8 +1218,67 @@ func (q *seqGen) read(n int, tok string, advance bool) {
 	}
 }
 
+func negItem(g *h.G) string {
+	n := -(1 + g.Rng.Intn(20))
+	if g.Rng.Intn(3) == 0 {
+		n = -g.Pick(1, 7, 8, 9, 16, 64, 1000)
+	}
+	switch g.Rng.Intn(13) {
+	case 0:
+		return fmt.Sprintf("sk:%d", n)
+	case 1:
+		return fmt.Sprintf("ru:%d", n)
+	case 2:
+		return fmt.Sprintf("pu:%d", n)
+	case 3:
+		return fmt.Sprintf("ri:%d", n)
+	case 4:
+		return fmt.Sprintf("ry:%d", n)
+	case 5:
+		return fmt.Sprintf("rs:%d", n)
+	case 6:
+		return fmt.Sprintf("rU:%d", n)
+	case 7:
+		return fmt.Sprintf("rI:%d", n)
+	case 8:
+		return fmt.Sprintf("wu:%d:%d", g.U64(), n)
+	case 9:
+		return fmt.Sprintf("wi:%d:%d", int64(g.U64()), n)
+	case 10:
+		return fmt.Sprintf("wU:%d:%d", g.Rng.Intn(1000), n)
+	case 11:
+		return fmt.Sprintf("on:%d", n)
+	default:
+		return fmt.Sprintf("off:%d", n)
+	}
+}
+
+// negItem2: a negative-argument item available through the Cell wrappers
+func negItem2(g *h.G) string {
+	for {
+		it := negItem(g)
+		if !strings.HasPrefix(it, "o") {
+			return it
+		}
+	}
+}
+
 func (q *seqGen) step() {
 	g := q.g
+	if g.Rng.Intn(30) == 0 {
+		it := negItem(g)
+		if strings.HasPrefix(it, "o") {
+			if q.cell {
+				return
+			}
+			q.wf = false // On/Off are not part of the specification vocabulary
+		}
+		q.items = append(q.items, it)
+		if !strings.HasPrefix(it, "wu") {
+			q.errs = true
+		}
+		return
+	}
 	free := q.cap - q.ln
 	avail := q.ln - q.cur
 	wantRead := avail > 0 && g.Rng.Intn(100) < 45
@@ -1420,6 +1638,96 @@ func genC06(g *h.G) {
 			g.NonTrivial("cell " + init + " " + line)
 		}
 	}
+	// cell-level sequences over a heap: sharing, self references, NextRef resetting children, CopyRemaining
+	for i := 0; i < g.Scale(1500, 30000); i++ {
+		n := 1
+		var st []string
+		bitItem := func() string {
+			switch g.Rng.Intn(16) {
+			case 0, 1, 2:
+				w := pickWidth(g)
+				return fmt.Sprintf("wu:%d:%d", valOfWidth(g, w), w)
+			case 3:
+				w := pickWidth(g)
+				return fmt.Sprintf("wi:%d:%d", intOfWidth(g, w), w)
+			case 4:
+				return "ws:" + randBits(g, g.Rng.Intn(40))
+			case 5:
+				return "wy:" + h.Hex(g.Bytes(g.Rng.Intn(5)))
+			case 6, 7:
+				return fmt.Sprintf("ru:%d", pickWidth(g))
+			case 8:
+				w := pickWidth(g)
+				return fmt.Sprintf("ri:%d", w)
+			case 9:
+				return fmt.Sprintf("sk:%d", g.Rng.Intn(12))
+			case 10:
+				return fmt.Sprintf("rs:%d", g.Rng.Intn(30))
+			case 11:
+				return "rr"
+			case 12:
+				return "rb"
+			case 13:
+				return fmt.Sprintf("wn:%d", g.Rng.Intn(8))
+			case 14:
+				return negItem2(g)
+			default:
+				return fmt.Sprintf("ry:%d", g.Rng.Intn(4))
+			}
+		}
+		steps := 10 + g.Rng.Intn(40)
+		alias := false
+		for k := 0; k < steps; k++ {
+			t := g.Rng.Intn(n)
+			if g.Rng.Intn(40) == 0 {
+				t = n + g.Rng.Intn(2) // no such cell
+			}
+			var it string
+			switch r := g.Rng.Intn(20); {
+			case r < 7:
+				it = bitItem()
+			case r < 10:
+				ch := g.Rng.Intn(n)
+				if g.Rng.Intn(25) == 0 {
+					ch = n
+				}
+				if ch == t {
+					alias = true
+				}
+				it = fmt.Sprintf("ar:%d", ch)
+			case r < 11:
+				it = "nf"
+				if t < n {
+					n++
+				}
+			case r < 14:
+				it = "nr"
+			case r < 15:
+				it = "rC"
+			case r < 17:
+				it = "cr"
+				if t < n {
+					n++
+				}
+			case r < 18:
+				it = pickS(g, "rz", "ra", "ba", "bw")
+			default:
+				it = "nc"
+				n++
+			}
+			st = append(st, fmt.Sprintf("%d.%s", t, it))
+		}
+		line := strings.Join(st, ";")
+		g.Emit("bs.cellseq", line)
+		g.Emit("bs.cellspec", line)
+		g.Count("cellseq")
+		if alias {
+			g.Count("cellseq_with_self_reference")
+		}
+		if strings.Contains(line, "nr") && strings.Contains(line, "cr") {
+			g.NonTrivial("cellseq " + line)
+		}
+	}
 	// (c) Fift hex: every length 0..1023 x 3 contents; (d) malformed text ---------------------------------------------
 	for n := 0; n <= 1023; n++ {
 		for k := 0; k < 3; k++ {
@@ -1682,6 +1990,19 @@ func genC06(g *h.G) {
 	}
 	for n := 0; n <= 7; n++ {
 		g.Emit("go.refs", fmt.Sprint(n))
+	}
+	for i := 0; i < g.Scale(600, 6000); i++ {
+		nb := g.Rng.Intn(40)
+		bin := randBits(g, nb)
+		if bin == "" {
+			bin = "-"
+		}
+		it := negItem(g)
+		if g.Rng.Intn(8) == 0 {
+			it = fmt.Sprintf("wI:%d:%d", int64(g.U64())>>uint(g.Rng.Intn(64)), -g.Rng.Intn(3))
+		}
+		g.Emit("go.negarg", bin, fmt.Sprint(g.Rng.Intn(nb+1)), it)
+		g.Count("negative_int_argument")
 	}
 	// CopyRemaining after k consumed references / skipped bits, every ref count 0..4, every k, every alignment
 	for n := 0; n <= 4; n++ {
